@@ -602,3 +602,30 @@ def features(model):
         if e.signed:
             bump("enum_negative")
     return c
+
+
+def scalar_count(rec, memo=None, depth=0):
+    """number of scalar elements an object of this record holds (arrays multiplied out): bounds probe output and run time"""
+    memo = {} if memo is None else memo
+    if id(rec) in memo:
+        return memo[id(rec)]
+    total = 0
+    for f in rec.fields:
+        if f.inline is not None:
+            total += scalar_count(f.inline, memo, depth + 1)
+            continue
+        t = f.ty
+        mult = 1
+        while isinstance(t, (Array, TypedefRef)):
+            if isinstance(t, Array):
+                for dmn in t.dims:
+                    mult *= max(1, dmn or 1)
+                t = t.elem
+            else:
+                t = t.target
+        if isinstance(t, RecordRef) and depth < 12:
+            total += mult * scalar_count(t.rec, memo, depth + 1)
+        else:
+            total += mult
+    memo[id(rec)] = total
+    return total
